@@ -54,6 +54,7 @@ def make_cases(ctx, n, profiles=('core', 'free'), docs=None, **kw):
     cases = [Case(d) for d in docs]
     for c in cases:
         c.import_impl()
+        noise(rng, c.doc)
         for row in c.adoc['rows']:
             ctx.count('row:' + (row['rk'] if row['kind'] == 'cells' else 'global'))
             if row['kind'] == 'cells':
@@ -61,6 +62,39 @@ def make_cases(ctx, n, profiles=('core', 'free'), docs=None, **kw):
                     ctx.count('cell:' + cell['k'] + (':' + cell.get('kind', '') if cell['k'] == 'other' else ''))
         ctx.count('spines:%d' % len(c.adoc['headers']))
     return cases
+
+
+def noise(rng, doc):
+    """a few read-only calls with arbitrary options before the calls a check looks at: on correct code they change nothing (C14), so every
+    document-level check also sees the library after an arbitrary history of other calls (caches, shared option objects, module-level sets)"""
+    if doc is None:
+        return
+    import kernpy as kp
+    from kernpy.core.tokens import TokenCategory as TC
+    from kernpy.core.tokenizers import Encoding
+    cats = list(TC)
+    encs = list(Encoding.__members__.values())
+    for _ in range(rng.randint(0, 3)):
+        k = rng.randrange(8)
+        try:
+            if k == 0:
+                kp.dumps(doc, exclude=rng.sample(cats, rng.randint(1, 3)))
+            elif k == 1:
+                kp.dumps(doc, include=set(rng.sample(cats, rng.randint(1, 6))), exclude={rng.choice(cats)}, encoding=rng.choice(encs))
+            elif k == 2:
+                doc.get_all_tokens(filter_by_categories=rng.sample(cats, rng.randint(1, 3)))
+            elif k == 3:
+                kp.dumps(doc, spine_ids=[0], encoding=rng.choice(encs))
+            elif k == 4:
+                kp.dumps(doc, from_measure=1, to_measure=1)
+            elif k == 5:
+                TC.valid(include=None, exclude=rng.sample(cats, 2))
+            elif k == 6:
+                doc.get_unique_token_encodings(filter_by_categories=[rng.choice(cats)])
+            else:
+                kp.dumps(doc, spine_types=['**kern'], include=kp.BEKERN_CATEGORIES if hasattr(kp, 'BEKERN_CATEGORIES') else None, exclude=[rng.choice(cats)])
+        except Exception:  # noqa  (out-of-range measures, unknown spines ...: the outcome of the noise is irrelevant)
+            pass
 
 
 def nontrivial(case):
@@ -281,6 +315,14 @@ def run_option_sets(ctx, cases, combos, per_case_selections, what, clause, tie=T
                        'spine_types': s.get('types'), 'spine_ids': s.get('ids'), 'clause': clause}
                 ctx.count('enc:%s' % enc)
                 ctx.check(inp, got, model, sp, nontrivial=(nontrivial(case) if nontriv is None else nontriv(case, combo, s)), what=what)
+                # the Lean specification of dumps(loads(text), options) as a function of the text (KernModel/Spec/TextExport.lean, theorem
+                # C10_export_of_text): the real export must be exactly that
+                if tie and mresp[k].get('wf') and 'spec' in mresp[k] and mresp[k]['spec'][si] is not None:
+                    ls = mresp[k]['spec'][si]
+                    ctx.count('lean_text_spec')
+                    if got != ls:
+                        ctx.fail({**inp, 'clause': clause + ' (Lean specification of dumps(loads(text), options))'},
+                                 'the export is not what the specification of dumps(loads(text), options) as a function of the text says', impl=got, expected=ls)
 
 
 # ------------------------------------------------------------------ the reference spine-path tracker on the abstract grid
